@@ -16,6 +16,10 @@ type Trace struct {
 	f  *os.File
 	w  *bufio.Writer
 	N  int // events written
+
+	// Buf, when non-nil, collects events in memory instead of writing them
+	// (crash profiles insert observations at earlier positions before flushing).
+	Buf *[]Ev
 }
 
 func NewTrace(path string) (*Trace, error) {
@@ -31,6 +35,10 @@ func NewTrace(path string) (*Trace, error) {
 func (t *Trace) Emit(e Ev) {
 	t.mu.Lock()
 	defer t.mu.Unlock()
+	if t.Buf != nil {
+		*t.Buf = append(*t.Buf, e)
+		return
+	}
 	b, err := json.Marshal(e)
 	if err != nil {
 		panic(err)
